@@ -58,13 +58,13 @@ fn first_diff(a: &[String], b: &[String]) -> String {
 pub fn run(ctx: &Ctx) -> i32 {
     let mut rep = Report::new(
         ctx,
-        "programs from the structured generator (wild and conforming profiles) plus programs with shared code (a function entered by a plain jump \
+        "programs from the structured generator (wild and conforming profiles), trap handlers, shared tails, loop-carried slots, inherited exit numbers, semantic mutants, one epilogue file included in every arm of a function (several returns at one position of one file), plus programs with shared code (a function entered by a plain jump \
          or by fall-through, i.e. overlapping functions); after Manager::gen_full_cfg a canonical snapshot of every edge, register/memory fact, liveness set and \
          function annotation is taken through the public getters; then random sequences (length 1-6, all three singletons always) of extra \
          AvailableValuePass / EcallTerminationPass / LivenessPass runs must leave snapshot and diagnostics unchanged; the same parsed program is analysed twice; \
          the verif-hooks sweep counters must stay below 3*(4n+16) / (4n+16) / (n+2). distinct_nontrivial = distinct programs with >= 1 loop or call whose snapshots were compared",
     );
-    rep.assume("reproducibility is compared only for programs in which no function has two returns (the choice of the exit among several returns follows hash order; that is C10/C11 material)");
+    rep.assume("reproducibility is not compared for programs with overlapping functions (hand-written shapes, planted jumps into functions, semantic mutants): the known finding of C11 makes the exit of such functions stale");
     let per_shard = ctx.tier.pick(80, 2000);
     let acc = run_sharded(ctx, |shard| {
         let mut acc = Acc::new();
@@ -107,10 +107,44 @@ pub fn run(ctx: &Ctx) -> i32 {
                 4 | 5 => "wild-branches-into-functions",
                 _ => "wild",
             } };
-            let text = c.printed.text.clone();
+            let mut text = c.printed.text.clone();
+            // ---- a family of its own: one epilogue file (restore + ret) included at the end of every
+            // arm of a function, so that several returns stand at one and the same position of one file
+            let mut files: Vec<(String, String)> = Vec::new();
+            let include_family = k % 8 == 6;
+            if include_family {
+                let arms = 2 + rng.below(2);
+                let mut m = String::from("# c12\nmain:\n");
+                m.push_str(&format!("    li a0, {}\n    jal pick\n    mv a0, a0\n    li a7, 10\n    ecall\npick:\n    addi sp, sp, -16\n    sw s0, 0(sp)\n    mv s0, a0\n", rng.range(0, 3)));
+                for a in 0..arms {
+                    if a + 1 < arms {
+                        m.push_str(&format!("    li t0, {a}\n    bne s0, t0, arm_{}\n", a + 1));
+                    }
+                    m.push_str(&format!("    addi a0, s0, {}\n", rng.range(1, 40)));
+                    if rng.chance(0.3) {
+                        m.push_str("    li s0, 7\n    mv a0, s0\n");
+                    }
+                    m.push_str(".include \"epi.s\"\n");
+                    if a + 1 < arms {
+                        m.push_str(&format!("arm_{}:\n", a + 1));
+                    }
+                }
+                let epi = if rng.chance(0.5) { "    lw s0, 0(sp)\n    addi sp, sp, 16\n    ret\n" } else { "    addi sp, sp, 16\n    ret\n" };
+                files = vec![(FILE.to_string(), m.clone()), ("epi.s".to_string(), epi.to_string())];
+                text = format!("=== main.s\n{m}=== epi.s\n{epi}");
+            }
+            let shape_name = if include_family { "one-epilogue-file-included-in-every-arm" } else { shape_name };
             let replay = json!({"program": text});
             // ---- parse once
-            let parsed = guarded(|| rva::parse_only(MemReader::single(FILE, &text), FILE));
+            let parsed = guarded(|| {
+                if include_family {
+                    let mut rd = MemReader::new(&files);
+                    rd.reread = if k % 16 == 6 { rva::Reread::AllowFreshId } else { rva::Reread::AllowSameId };
+                    rva::parse_only(rd, FILE)
+                } else {
+                    rva::parse_only(MemReader::single(FILE, &text), FILE)
+                }
+            });
             let Ok((reader, nodes, errs)) = parsed else {
                 acc.count("parse_panicked", 1);
                 continue;
@@ -160,7 +194,9 @@ pub fn run(ctx: &Ctx) -> i32 {
             let s0 = gv.snapshot();
             let d0 = diag_keys(&cfg, &reader);
             // ---- reproducibility
-            let multi_ret = shape < 2 || special || c.g.prog.instructions().iter().filter(|i| i.is_ret()).count() > c.g.funcs.len();
+            // (overlapping functions are the known finding of C11: which exit a rewritten return
+            // belongs to is stale there; everything else, several returns included, must repeat)
+            let multi_ret = !include_family && (shape < 2 || special || mutant);
             if !multi_ret {
                 if let Some((cfg2, _)) = build(&mut acc) {
                     let s1 = GraphView::of(&cfg2).snapshot();
